@@ -278,7 +278,7 @@ public:
 	template<class T>
 	File& operator<<(const Array<T>& x)
 	{
-		if (_endian == ASL_OTHER_ENDIAN)
+		if (_endian == ASL_OTHER_ENDIAN || !IsArithmetic<T>::value)
 		{
 			foreach(const T& y, x)
 				*this << y;
